@@ -421,11 +421,16 @@ func (c *ServerChannel) FinishSession(ctx context.Context) error {
 
 	err := c.sendTerminalSession(ctx, &ses)
 
+	// The transport is closed even if the session envelope could not
+	// be sent, otherwise the connection would never be released. It is
+	// closed before the receiver is stopped (by the state change), which
+	// would otherwise wait for the read poll interval of its pending
+	// read, holding the caller beyond the deadline of its context.
+	closeErr := c.transport.Close()
+
 	c.setState(SessionStateFinished)
 
-	// The transport is closed even if the session envelope could not
-	// be sent, otherwise the connection would never be released.
-	if closeErr := c.transport.Close(); err == nil && closeErr != nil {
+	if err == nil && closeErr != nil {
 		err = fmt.Errorf("closing the transport failed: %w", closeErr)
 	}
 
@@ -448,11 +453,16 @@ func (c *ServerChannel) FailSession(ctx context.Context, reason *Reason) error {
 
 	err := c.sendTerminalSession(ctx, &ses)
 
+	// The transport is closed even if the session envelope could not
+	// be sent, otherwise the connection would never be released. It is
+	// closed before the receiver is stopped (by the state change), which
+	// would otherwise wait for the read poll interval of its pending
+	// read, holding the caller beyond the deadline of its context.
+	closeErr := c.transport.Close()
+
 	c.setState(SessionStateFailed)
 
-	// The transport is closed even if the session envelope could not
-	// be sent, otherwise the connection would never be released.
-	if closeErr := c.transport.Close(); err == nil && closeErr != nil {
+	if err == nil && closeErr != nil {
 		err = fmt.Errorf("closing the transport failed: %w", closeErr)
 	}
 
